@@ -1144,7 +1144,10 @@ impl Model for Cw3Model {
                 out_tx = Some(o);
             }
         }
-        let obs = self.observe(&w);
+        // a refused call leaves the world untouched (kernel commit rule, checked by fingerprint): its
+        // observation is the previous one
+        let unchanged = !ok && fp128(&w) == fp128(&s.w);
+        let obs = if unchanged { (*s.obs).clone() } else { self.observe(&w) };
 
         // ---------------------------------------------------------------- deliveries seen by the kernel
         // tagged messages delivered to the sink in this transaction (committed ones only), per proposal
